@@ -15,6 +15,7 @@ import (
 	"time"
 
 	"github.com/foxcpp/maddy/internal/verif/vos"
+	"github.com/foxcpp/maddy/internal/verif/vsched"
 	"github.com/foxcpp/maddy/internal/verif/vx"
 )
 
@@ -303,6 +304,8 @@ type c02Case struct {
 	Drop     string `json:"unsynced_subset,omitempty"`
 	Recovery int    `json:"recovery_mode"`
 	Crash2   int    `json:"second_crash_before_op"` // -1: none
+	// Schedule: scheduler choices of the original run (absent: the default schedule)
+	Schedule []int `json:"schedule,omitempty"`
 }
 
 type c02Run struct {
@@ -485,18 +488,9 @@ func TestVerifC02(t *testing.T) {
 	depth2 := map[string]bool{"S1-deliver": true, "S2-partial-retry": true, "S3-permanent-report": true, "S4-abort": true}
 	idx := 0
 	var crashStates, tornStates, unsyncedStates, recoveries, depth2Recoveries int64
-	for _, sc := range scs {
-		if replay != nil && replay.Scenario != sc.Name {
-			continue
-		}
-		d0 := filepath.Join(scratch, "orig")
-		os.RemoveAll(d0)
-		os.MkdirAll(d0, 0o755)
-		orig := c02Original(d0, sc)
-		if orig.outcome != "" || len(orig.tgt.viol) > 0 {
-			r.Violation("C02:original-run:"+orig.outcome, fmt.Sprintf("scenario %s: %s %v", sc.Name, orig.outcome, orig.tgt.viol), c02Case{Scenario: sc.Name, Crash: -1, Crash2: -1})
-			continue
-		}
+	// crashEnum enumerates the crash states of one recorded run (the default schedule or an
+	// alternative interleaving of acceptance and delivery) and judges every recovery.
+	crashEnum := func(sc c02Scenario, orig c02Run, sched []int) {
 		n := 0
 		for _, o := range orig.ops {
 			if o.Kind != "marker" {
@@ -569,7 +563,7 @@ func TestVerifC02(t *testing.T) {
 			for _, v := range vs {
 				for mode := 0; mode < 2; mode++ {
 					idx++
-					c := c02Case{Scenario: sc.Name, Crash: i, Markers: len(cp.markers), Torn: v.torn, Unsynced: v.unsynced, Drop: v.drop, Recovery: mode, Crash2: -1}
+					c := c02Case{Scenario: sc.Name, Crash: i, Markers: len(cp.markers), Torn: v.torn, Unsynced: v.unsynced, Drop: v.drop, Recovery: mode, Crash2: -1, Schedule: sched}
 					if replay != nil {
 						if replay.Crash != c.Crash || replay.Markers != c.Markers || replay.Torn != c.Torn || replay.Unsynced != c.Unsynced || replay.Drop != c.Drop || replay.Recovery != c.Recovery {
 							continue
@@ -659,9 +653,106 @@ func TestVerifC02(t *testing.T) {
 			}
 		}
 	}
+	for _, sc := range scs {
+		if replay != nil && replay.Scenario != sc.Name {
+			continue
+		}
+		d0 := filepath.Join(scratch, "orig")
+		os.RemoveAll(d0)
+		os.MkdirAll(d0, 0o755)
+		orig := c02Original(d0, sc)
+		if orig.outcome != "" || len(orig.tgt.viol) > 0 {
+			r.Violation("C02:original-run:"+orig.outcome, fmt.Sprintf("scenario %s: %s %v", sc.Name, orig.outcome, orig.tgt.viol), c02Case{Scenario: sc.Name, Crash: -1, Crash2: -1})
+			continue
+		}
+		if replay == nil || replay.Schedule == nil {
+			crashEnum(sc, orig, nil)
+		}
+		// alternative schedules: every interleaving of the accepting thread and the delivery
+		// threads within one pre-emption; each distinct operation log gets its own crash enumeration
+		if len(sc.Msgs) >= 2 && (vx.Thorough() || sc.Name == "S5-two-messages" || (replay != nil && replay.Schedule != nil)) {
+			c02Schedules(r, d0, sc, orig, replay, crashEnum)
+		}
+	}
 	r.Count("crash_states", crashStates)
 	r.Count("torn_states", tornStates)
 	r.Count("unsynced_states", unsyncedStates)
 	r.Count("recoveries", recoveries)
 	r.Count("depth2_recoveries", depth2Recoveries)
+}
+
+
+// c02Schedules explores the schedules of the original run of a multi-message scenario
+// (pre-emption bound 1) and hands every run whose operation log differs from the ones
+// seen so far to the crash enumeration.
+func c02Schedules(r *vx.Run, d0 string, sc c02Scenario, def c02Run, replay *c02Case, crashEnum func(c02Scenario, c02Run, []int)) {
+	sig := func(ops []vos.Op) string {
+		var sb strings.Builder
+		for _, o := range ops {
+			fmt.Fprintf(&sb, "%s|%s|%s|%s|%d;", o.Kind, o.Path, o.To, o.Note, len(o.Data))
+		}
+		return sb.String()
+	}
+	seen := map[string]bool{sig(def.ops): true}
+	var tgt, bounce *qhTarget
+	mk := func() vsched.Scenario {
+		os.RemoveAll(d0)
+		os.MkdirAll(d0, 0o755)
+		tgt = &qhTarget{name: "target", partial: sc.Partial, decide: sc.decide}
+		bounce = &qhTarget{name: "bounce", commitNote: c02BounceNote}
+		vos.Rec = vos.NewRecorder(d0)
+		return vsched.Scenario{
+			Root: func() {
+				q, err := qhNewQueue(qhQueueOpts{dir: d0, target: tgt, bounce: bounce, maxTries: sc.MaxTries})
+				if err != nil {
+					panic(err)
+				}
+				for _, m := range sc.Msgs {
+					qm := qhSimpleMsg(m.ID, m.From, m.Rcpts...)
+					qm.AbortAfterBody, qm.AbortBeforeBody = m.AbortA, m.AbortB
+					qhSubmit(q, qm)
+				}
+			},
+			Check: func(o *vsched.Outcome) (string, string) { return "", "" },
+		}
+	}
+	opt := vsched.Options{KeepEnv: true, MaxSteps: 30000}
+	if replay != nil && replay.Schedule != nil {
+		e := &vsched.Explorer{Opt: opt}
+		out, _, _ := e.Replay(mk, replay.Schedule)
+		run := c02Run{ops: vos.Rec.Ops, tgt: tgt, bounce: bounce, endAt: out.EndedAt}
+		vos.Rec = nil
+		crashEnum(sc, run, replay.Schedule)
+		return
+	}
+	e := &vsched.Explorer{Bound: 1, Opt: opt, MaxExecs: 400}
+	var runs []c02Run
+	var scheds [][]int
+	e.Explore(mk, func(vsched.Found) {}, func(o *vsched.Outcome, fp string) {
+		ops := vos.Rec.Ops
+		vos.Rec = nil
+		r.Count("original_run_schedules", 1)
+		if len(o.Panics) > 0 || o.Deadlock || o.StepCap {
+			r.Violation("C02:original-run:schedule", fmt.Sprintf("scenario %s: panics=%v deadlock=%v", sc.Name, o.Panics, o.Deadlock), c02Case{Scenario: sc.Name, Crash: -1, Crash2: -1})
+			return
+		}
+		k := sig(ops)
+		if seen[k] {
+			return
+		}
+		seen[k] = true
+		var ch []int
+		for _, p := range o.Points {
+			ch = append(ch, p.Chosen)
+		}
+		runs = append(runs, c02Run{ops: ops, tgt: tgt, bounce: bounce, endAt: o.EndedAt})
+		scheds = append(scheds, ch)
+	})
+	r.Bound(sc.Name+".distinct_operation_logs_of_alternative_schedules", len(runs))
+	if e.Capped {
+		r.Cap(sc.Name + ": schedule exploration of the original run capped at 400 executions")
+	}
+	for i := range runs {
+		crashEnum(sc, runs[i], scheds[i])
+	}
 }
